@@ -10,7 +10,7 @@ AUDIT_IMPORTS = ["PoorProofs.Props.C18"]
 LEAN_FILES = ["PoorModel/HeaderValue.lean", "PoorModel/Date.lean", "PoorProofs/Lemmas/HeaderValue.lean",
               "PoorProofs/Lemmas/Date.lean", "PoorProofs/Props/C18.lean"]
 THEOREMS = ["Poor.HeaderValue.unescape_escQ", "Poor.HeaderValue.splitSeg_quoted", "Poor.Props.C18.parseOne_render",
-            "Poor.Props.C18.C18_params", "Poor.Props.C18.C18_ranges", "Poor.Props.C18.C18_nego",
+            "Poor.Props.C18.C18_params", "Poor.Props.C18.C18_ranges", "Poor.Props.C18.C18_nego", "Poor.Props.C18.C18_nego_list",
             "Poor.Props.C18.C18_total", "Poor.Props.C18.pattern_pinned", "Poor.Date.ord_roundtrip",
             "Poor.Date.ord2ymd_valid", "Poor.Date.ord2ymd_year", "Poor.Date.parse_render", "Poor.Props.C18.C18_dates",
             "Poor.Props.C18.C18_dates_injective", "Poor.Props.C18.C18_dates_width", "Poor.Date.ymd_roundtrip",
@@ -69,6 +69,14 @@ def generate(rng, tier):
             q = rng.choice([None, None, 0, 1, 0.5, 0.25, 0.125, 0.8, 1.0, 0.001, 0.999])
             items.append((v, q))
         cases.append("C18 nego " + hx(render_nego(items)))
+    # rendering itself (the quality enters the model as the text str() gives)
+    for _ in range(600 if tier == "thorough" else 120):
+        items = []
+        for _ in range(rng.randrange(1, 7)):
+            v = rng.choice(["gzip", "text/html", "*", "text/html;level=1", "en-US", "identity", "a b", "", "é"])
+            q = rng.choice([None, None, 0, 1, 0.5, 0.25, 0.125, 0.8, 1.0, 0.001, 0.999, 1e-07, 10])
+            items.append("%s;%s" % (hx(v), "-" if q is None else hx(str(q))))
+        cases.append("C18 negor " + ",".join(items))
     for j in ["", ",", ";q=", "a;q=", "a;q=x", "a;q=0.5;q=0.1", "a;q=0.5;b", " a ; q=1", "a;q= 0.5", "a;Q=0.5", "a;q=1e-1",
               "a;q=inf", "a;q=nan", ",,a,,", "a;q=0.5, b;q=٣", "a;q=1_0", "a;q=0x1"]:
         cases.append("C18 nego " + hx(j))
@@ -171,6 +179,13 @@ def observe(case):
             if any(not k.isascii() for k in pd):
                 return "unsupported"
             return hx(main) + "|" + pairs_tok(list(pd.items()))
+        if t[1] == "negor":
+            items = []
+            for it in t[2].split(","):
+                v, q = it.split(";")
+                v = unhx(v).decode()
+                items.append((v,) if q == "-" else (v, eval(unhx(q).decode(), {"__builtins__": {}})))
+            return hx(H.render_negotiation(items))
         if t[1] == "nego":
             return ",".join("%s;%s" % (hx(v), hx(repr(q))) for v, q in H.parse_negotiation(unhx(t[2]).decode()))
         if t[1] == "range":
@@ -225,6 +240,20 @@ def oracle(case):
             if (m2, d2) != first:
                 return [Violation("c18-hdr-state", case, "parsing %r again after the caller changed the first result "
                                   "gives %r, first %r" % (text[:60], (m2, d2), first))]
+            return []
+        if t[1] == "negor":
+            items = []
+            for it in t[2].split(","):
+                v, q = it.split(";")
+                v = unhx(v).decode()
+                items.append((v,) if q == "-" else (v, eval(unhx(q).decode(), {"__builtins__": {}})))
+            if any("," in i[0] or ";q=" in i[0] or i[0].strip() != i[0] for i in items):
+                return []
+            text = H.render_negotiation(items)
+            got = H.parse_negotiation(text)
+            want = [(i[0], float(i[1]) if len(i) > 1 else 1.0) for i in items]
+            if got != want:
+                return [Violation("c18-nego-roundtrip", case, "rendered %r parses to %r, the list was %r" % (text, got, want))]
             return []
         if t[1] == "nego":
             text = unhx(t[2]).decode()
